@@ -13,6 +13,7 @@ typedef long double ld;
 typedef std::complex<ld> cld;
 static const ld EPS = 1.1102230246251565404e-16L;  // 2^-53
 static const int RMAX = 12;
+static const ld TINY = 0x1p-1060L;  // absolute slack for gradual underflow (16384 x the smallest subnormal)
 
 struct Mat {
   int n;
